@@ -267,32 +267,35 @@ NOT_APPLICABLE = {
 # claim text by tools/gen_manifest.py so that the manifest says what the check decides today.
 LATER_RULES = {
     "C01": "R01c placeholder emission never depends on the indent switch; R01d a split element is cut where the previous piece ended.",
-    "C02": "R02b an unmatched remainder is empty, non-code or wrapped as unparsable; R02e(3) an unparsable section starts at the first code token after the matched part.",
+    "C02": "R02b an unmatched remainder is empty, non-code or wrapped as unparsable; R02e(3) an unparsable section starts at the first code token after the matched part. R02f every parsed variant pairs a templated file with the tree lexed and parsed from that same file.",
     "C03": "R03d a node's position is the hull of all its children; R03e buffered metas are emitted in grammar order.",
-    "C04": "R04f no next() without default / R04g no mis-sized split unpacking outside the rule packages; R04h a variant's tree is known to exist where it is linted.",
-    "C05": "R05d flag forwarding in recursive walks; R05e constant subscripts guarded; R05f no whitespace segment from an empty text; R05g every assert discharged, typing-only or reviewed; R05h no fix with an empty edit.",
+    "C04": "R04f no next() without default / R04g no mis-sized split unpacking outside the rule packages; R04h a variant's tree is known to exist where it is linted. R04i the python templater slices a string only after rendering accepted it.",
+    "C05": "R05d flag forwarding in recursive walks; R05e constant subscripts guarded; R05f no whitespace segment from an empty text; R05g every assert discharged, typing-only or reviewed; R05h no fix with an empty edit. R05i rules that read their memory hand it back; R05j no create fix re-creates an unfiltered span of siblings (metas have no raw).",
     "C07": "R07d per-variant working state; R07e left-strip handling for every opening token; R07f field token rebuilt in format-grammar order; R07g override delta measured on the rendered text; R07h adjusted slices carry the running delta.",
-    "C08": "R08a also: environment policies stay at Jinja's defaults; R08d stand-ins never win over the user's context (bulk merges included).",
-    "C09": "R09g overlapping occurrences counted; R09h context layered default < config < override; R09i a matched placeholder is a templated slice.",
-    "C10": "R10e scan bounds; R10f every templated slice is a conflict; R10g break safety by literalness only; R10h JJ01 tag surgery; R10i end of file is the end of the last raw slice.",
+    "C08": "R08a also: environment policies stay at Jinja's defaults; R08d stand-ins never win over the user's context (bulk merges included). R08e ignore_templating is decided by membership of 'templating' in the ignore list.",
+    "C09": "R09g overlapping occurrences counted; R09h context layered default < config < override; R09i a matched placeholder is a templated slice. R09j infer_type results.",
+    "C10": "R10e scan bounds; R10f every templated slice is a conflict; R10g break safety by literalness only; R10h JJ01 tag surgery; R10i end of file is the end of the last raw slice. R10j JJ01 rebuilds a tag from its own five parts in order.",
     "C11": "R11e autodetect judges the whole file, never a slice; R11f string input reaches render_string as given.",
     "C12": "R12d what RF06 unquotes lexes back as one word; R12e borrowed whitespace goes on the gap side of a pending insertion.",
-    "C14": "R14c comment guard of respace; R14d LT09 never moves a target behind a comment; R14e LT12's trailing-newline scan stops at comments.",
-    "C15": "R15c CP05 child iteration; R15d no keyword parser matches quoted text.",
-    "C18": "R18e templating errors are kept on every path of the variant loop; 'unfiltered' counts also keep warning-level errors.",
+    "C14": "R14c comment guard of respace; R14d LT09 never moves a target behind a comment; R14e LT12's trailing-newline scan stops at comments. R14f determine_constraints' verdict is final.",
+    "C15": "R15c CP05 child iteration; R15d no keyword parser matches quoted text. R15e no capitalisation rule crawls a type that may be a quoted name (four known findings).",
+    "C18": "R18e templating errors are kept on every path of the variant loop; 'unfiltered' counts also keep warning-level errors. R18f root_variant returns the first parsed variant or None.",
     "C19": "R19d sibling drivers share options; R19e records built from get_violations(filter_warning=False).",
-    "C20": "R20f restricted noqa map built from the full map; R20g the source fallback counts lines by the newline literal.",
-    "C21": "R21g dialect collections never changed in place by rules; R21h the selector expander drops no selector; R21i derived selection lists recomputed on every path.",
+    "C20": "R20f restricted noqa map built from the full map; R20g the source fallback counts lines by the newline literal. R20f also: special error codes are expanded into a copy; R20h the ignore list reaches every filter.",
+    "C21": "R21g dialect collections never changed in place by rules; R21h the selector expander drops no selector; R21i derived selection lists recomputed on every path. R21j default-to-all only on the configured allow-list; R21k the simple API distinguishes 'not given' from empty.",
     "C22": "R22g parse-error counts reach the fix drivers' exit status only under not fix_even_unparsable.",
-    "C23": "R23e per-record mappings carry nothing across iterations; R23f line fields from line numbers, column fields from columns.",
-    "C24": "R24g a Linter keeps no state between files.",
-    "C25": "R25e inner ignore files loaded for every walked directory; R25h every outer ignore source tried; R25i same-name options forwarded from the parameter of that name.",
+    "C23": "R23e per-record mappings carry nothing across iterations; R23f line fields from line numbers, column fields from columns. R23g optional positions tested with `is not None` in the lexer.",
+    "C24": "R24g a Linter keeps no state between files. R24h every sequenced file yields a task; no skip decided at dispatch.",
+    "C25": "R25e inner ignore files loaded for every walked directory; R25h every outer ignore source tried; R25i same-name options forwarded from the parameter of that name. R25j sub-directories dropped only by the ignore test, on a path built from the walked directory.",
     "C27": "R27d copy() deep-copies; R27e nested_combine stores every key; R27f unset command-line options do not override config files.",
     "C28": "R28d per-variant tree output; R28e record values set in the iteration that uses them; R28f comment / non-comment lists partition the children; R28g type and text printed in full.",
     "C29": "R29c matchable class references; R29d a dialect module changes only its own dialect object.",
-    "C30": "R30e same-range patches conflict unless identical; R30f / R30h the slicer's equality pop (after the flush, on the equality only); R30g dedupe key = range + text.",
-    "C31": "R31c also: an unrecognised newline finder is judged for splitlines() before the table rule gives up.",
-    "C32": "R32d templater objects keep nothing from a file; R32e keyed memos identify every input; R32f setattr only on per-call objects.",
-    "C33": "R33a also: the seen set only grows; R33c variant / templated-file coherence; R33d CLI listing sorted at the print site; R33e noqa filters preserve order.",
+    "C30": "R30e same-range patches conflict unless identical; R30f / R30h the slicer's equality pop (after the flush, on the equality only); R30g dedupe key = range + text. R30i overlap test symmetric.",
+    "C31": "R31c also: an unrecognised newline finder is judged for splitlines() before the table rule gives up. R31d serialised create fixes collapse every coordinate onto the kept end.",
+    "C32": "R32d templater objects keep nothing from a file; R32e keyed memos identify every input; R32f setattr only on per-call objects. R32g memoised config loaders keyed on absolute paths.",
+    "C33": "R33a also: the seen set only grows; R33c variant / templated-file coherence; R33d CLI listing sorted at the print site; R33e noqa filters preserve order. R33f descriptions embed no templated-file coordinates.",
     "C34": "R34b limit read from the file's own config; R34d skip-fail escalation on every exit.",
+    "C06": "R06d prune_options drops only on a failed raw and type test; R06e next_match candidate order; R06f cache keys fresh per matcher; R06g a plain GREEDY sequence is never a prunable option.",
+    "C13": "R13c nested re-parse validation runs under the file's node budget.",
+    "C17": "R17d CP01 and CP05 own disjoint tokens.",
 }
